@@ -812,10 +812,29 @@ def trim(toks):
     return toks
 
 
-def case_sheet(sub, sub_seed, single=False):
+def case_sheet(sub, sub_seed, single=False, timed_dt=False):
     import atomica as at
 
     r = random.Random(sub_seed)
+    if timed_dt:
+        # timed compartments + a step size that is not a 16-digit decimal (weekly, daily, ...): the spreadsheet stores dt to 16 significant digits,
+        # the elapsed-time bins of the saved state must still be put back bin by bin
+        spec = None
+        for _ in range(30):
+            dt = r.choice([1 / 52, 1 / 12, 1 / 365, 1 / 6, 1 / 24, 7 / 365])
+            spec = genfw.random_spec(r, "calibrated", {"timed": r.choice([1, 2]), "junctions": r.choice([0, 1]), "npops": r.choice([1, 2]), "dt": dt, "max_rows": 10, "nsteps": r.randint(8, 14),
+                                                      "duration": dt * r.choice([3, 4, 6, 9])})
+            try:
+                world_from_spec(spec, None).original()
+                break
+            except Exception:
+                spec = None
+        if spec is None:
+            sub.count("gen.failed")
+            return
+        sub.count("sheet.timed_nondecimal_dt")
+        sheet_study(sub, spec, r.randrange(3, spec and 8), "sheet-timed", sub_seed, r)
+        return
     if single:
         npop = r.choice([2, 3])
         pops = ["pa", "pb", "pc"][:npop]
@@ -1035,6 +1054,8 @@ def do_job(job):
             case_sheet(sub, sub_seed)
         elif kind == "single":
             case_sheet(sub, sub_seed, single=True)
+        elif kind == "sheett":
+            case_sheet(sub, sub_seed, timed_dt=True)
         elif kind == "demo":
             case_demo(sub, sub_seed, arg)
     except core.DriverError as e:
@@ -1056,6 +1077,8 @@ def run(ctx):
         jobs.append(("sheet", r.randrange(1 << 30), ctx.tier, ctx.seed, None))
     for _ in range(ctx.n(1, 12)):
         jobs.append(("single", r.randrange(1 << 30), ctx.tier, ctx.seed, None))
+    for _ in range(ctx.n(3, 60)):
+        jobs.append(("sheett", r.randrange(1 << 30), ctx.tier, ctx.seed, None))
     for name in (DEMOS_QUICK if ctx.quick else DEMOS_THOROUGH):
         for _ in range(ctx.n(1, 6)):
             jobs.append(("demo", r.randrange(1 << 30), ctx.tier, ctx.seed, name))
